@@ -219,6 +219,7 @@ func cimProgram(repo, tool string) (items []string, u16order []string, nameWidth
 		case "run":
 			// every statement of run() must be one of the known shapes: nothing may stand between reading the image and writing it
 			// (no reassignment of b, off or nam, no extra condition) without the extraction refusing
+			var seq []string
 			for _, st := range fd.Body.List {
 				sh := stmtShape(fset, st)
 				ok := false
@@ -231,6 +232,42 @@ func cimProgram(repo, tool string) (items []string, u16order []string, nameWidth
 				if !ok {
 					panic(refusal(tool + ": run() contains a statement of an unexpected shape: " + sh))
 				}
+				seq = append(seq, sh)
+			}
+			// ... and in the known ORDER: flags, offset, (default name), READ the image, then create the output, then the writes, flush
+			phase := func(sh string) int {
+				switch {
+				case strings.HasPrefix(sh, "expr (call flag "):
+					return 0
+				case strings.HasPrefix(sh, "decl off ="):
+					return 1
+				case strings.HasPrefix(sh, `if (== nam ""`):
+					return 2
+				case strings.HasPrefix(sh, "assign b, err := (call os ReadFile"):
+					return 3
+				case strings.HasPrefix(sh, "assign f, err := (call os Create"):
+					return 4
+				case strings.HasPrefix(sh, "defer (call f Close"):
+					return 5
+				case strings.HasPrefix(sh, "assign w := (call bufio NewWriter"):
+					return 6
+				case strings.HasPrefix(sh, "return (call w Flush"):
+					return 8
+				case strings.HasPrefix(sh, "if (!= err nil"):
+					return -1 // follows whatever it checks
+				}
+				return 7 // the writes
+			}
+			last := 0
+			for _, sh := range seq {
+				ph := phase(sh)
+				if ph < 0 {
+					continue
+				}
+				if ph < last {
+					panic(refusal(tool + ": run() performs its steps in an unexpected order (the image must be read before the output file is created and written): " + sh))
+				}
+				last = ph
 			}
 			ast.Inspect(fd.Body, func(n ast.Node) bool {
 				if ifs, ok := n.(*ast.IfStmt); ok {
